@@ -585,39 +585,34 @@ theorem preKinds_convert : ∀ (pre : List Obj), (∀ o ∈ pre, PreKind o) →
 /-- **construction of a chain `pre* acc post*`** from objects: every pre-processing object is of one of the
 property's kinds (and is not itself a fill/compute element), the accumulator has callable `fill` and `compute`
 and neither `run` nor `__call__` (a dual-interface element like `Count` is wrapped in `FillCompute`), the
-post-processing objects are convertible by `Sequence`.  Then `FillComputeSeq(*args)` succeeds with a chain `c`
+post-processing objects (those without `_has_no_data`) are convertible by `Sequence`.  Then `FillComputeSeq(*args)` succeeds with a chain `c`
 whose accumulator and post-processing stages are the given ones, and `Sequence(*args)` succeeds and is exactly
 `seqStages c` — so `three_drivers_agree` speaks about the two real constructions. -/
 theorem construct_chain (pre post : List Obj) (acc : Obj) (postStages : List (Stage Value))
     (hpre : ∀ o ∈ pre, o.hasNoData = false ∧ o.caps.isFillComputeEl = false ∧ PreKind o)
     (hacc : acc.hasNoData = false ∧ acc.caps.isFillComputeEl = true ∧
       (acc.caps.attr "run").callable = false ∧ acc.caps.callable = false)
-    (hpost : (∀ o ∈ post, o.hasNoData = false) ∧ toStages post = .ok postStages) :
+    (hpost : toStages (dataSeq post) = .ok postStages) :
     ∃ c, mkFillComputeSeq (pre ++ acc :: post) = .ok c ∧ c.acc = acc.accDen ∧ c.post = postStages ∧
       toPres pre = .ok c.pre ∧ mkSequence (pre ++ acc :: post) = .ok (composeS (seqStages c)) := by
   obtain ⟨hand, hafc, harun, hacall⟩ := hacc
-  obtain ⟨hpnd, hpst⟩ := hpost
   obtain ⟨ps, hps, hss⟩ := preKinds_convert pre (fun o ho => (hpre o ho).2.2)
-  have hdata : dataSeq (pre ++ acc :: post) = pre ++ acc :: post := by
-    apply dataSeq_of_all_data
-    intro o ho
-    rcases List.mem_append.mp ho with h | h
-    · exact (hpre o h).1
-    · rcases List.mem_cons.mp h with rfl | h
-      · exact hand
-      · exact hpnd o h
-  have hsplit := splitAtFc_append pre acc post (fun o ho => (hpre o ho).2.1) hafc
+  have hpreData : dataSeq pre = pre := dataSeq_of_all_data pre (fun o ho => (hpre o ho).1)
+  have hdata : dataSeq (pre ++ acc :: post) = pre ++ acc :: dataSeq post := by
+    simp only [dataSeq] at hpreData ⊢
+    simp [List.filter_append, hpreData, List.filter_cons, hand]
+  have hsplit := splitAtFc_append pre acc (dataSeq post) (fun o ho => (hpre o ho).2.1) hafc
   have hfill : acc.caps.hasMethod "fill" = true := by
     simp only [Caps.isFillComputeEl, Bool.and_eq_true] at hafc
     exact hafc.1.2
   have haccStage : acc.toStage = .ok (fcRun acc.accDen) := by
     simp [Obj.toStage, harun, mkRun, Caps.hasMethod, hacall, hafc]
-  have hpostData : dataSeq post = post := dataSeq_of_all_data post hpnd
+  have hdd : dataSeq (dataSeq post) = dataSeq post := by simp [dataSeq, List.filter_filter]
   refine ⟨{ pre := ps, acc := acc.accDen, post := postStages }, ?_, rfl, rfl, hps, ?_⟩
-  · simp [mkFillComputeSeq, hdata, hsplit, mkFillSeq, hfill, hps, hpostData, hpst]
-  · have h2 : toStages (acc :: post) = .ok (fcRun acc.accDen :: postStages) := by
-      simp [toStages, haccStage, hpst]
-    have h3 := toStages_append pre (acc :: post) _ _ hss h2
+  · simp [mkFillComputeSeq, hdata, hsplit, mkFillSeq, hfill, hps, hdd, hpost]
+  · have h2 : toStages (acc :: dataSeq post) = .ok (fcRun acc.accDen :: postStages) := by
+      simp [toStages, haccStage, hpost]
+    have h3 := toStages_append pre (acc :: dataSeq post) _ _ hss h2
     simp [mkSequence, hdata, h3, seqStages]
 
 /-- the constructors raise nothing but `LenaTypeError` -/
@@ -684,6 +679,256 @@ example : ∀ o, Spec.toObj (.runIf .even [.call .inc]) = .ok o → PreKind o :=
     Caps.hasMethod, Attr.present, Attr.callable] at h
   subst h
   exact .canBreakFlow rfl rfl rfl rfl
+
+/-! ### end to end on the vocabulary of the correspondence check
+
+`driveSeq`, `driveFill`, `driveSplit` are the functions the model driver evaluates and the harness compares with
+the real `Sequence`, `FillComputeSeq` and `Split` on every generated case. -/
+
+/-- element descriptions of the property's pre-processing kinds: callable, `Variable`, `Filter`, `Slice` with
+non-negative arguments (a valid step), `RunIf` -/
+def Spec.InScope : Spec → Prop
+  | .call _ => True
+  | .var _ _ => True
+  | .filter _ => True
+  | .slice a b s => ∃ a' b' st, Lena.C17.mkSlice a b s = .islice a' b' st
+  | .runIf _ _ => True
+  | _ => False
+
+theorem mkSlice_islice_step (a b s : Option Int) (a' : Nat) (b' : Option Nat) (st : Nat)
+    (h : Lena.C17.mkSlice a b s = .islice a' b' st) : 1 ≤ st := by
+  unfold Lena.C17.mkSlice at h
+  split at h
+  · rename_i hnn
+    split at h
+    · cases h
+    · rename_i h0
+      simp only [Lena.C17.SliceKind.islice.injEq] at h
+      obtain ⟨_, _, rfl⟩ := h
+      cases s with
+      | none => simp
+      | some v =>
+        simp only [Bool.and_eq_true, Lena.C17.noneOrNonneg, decide_eq_true_eq] at hnn
+        have hv : v ≠ 0 := fun hv => h0 (by rw [hv])
+        simp only [Option.getD_some]
+        omega
+  · simp only [] at h
+    split at h <;> cases h
+
+/-- an in-scope element description denotes an object of the property's kinds, which is a data element, is
+not a fill/compute element, and whose `fill_into` face is well-formed -/
+theorem spec_preKind (s : Spec) (hs : s.InScope) (o : Obj) (ho : s.toObj = .ok o) :
+    PreKind o ∧ o.hasNoData = false ∧ o.caps.isFillComputeEl = false ∧
+      ∀ p, o.toPre = .ok p → p.WF := by
+  cases s with
+  | call f =>
+    simp only [Spec.toObj, Except.ok.injEq] at ho
+    subst ho
+    refine ⟨.callable rfl rfl rfl rfl, rfl, rfl, ?_⟩
+    intro p hp
+    change Except.ok (Pre.call f.call) = Except.ok p at hp
+    cases hp
+    trivial
+  | var name g =>
+    simp only [Spec.toObj, Except.ok.injEq] at ho
+    subst ho
+    refine ⟨.callable rfl rfl rfl rfl, rfl, rfl, ?_⟩
+    intro p hp
+    change Except.ok (Pre.call (variableCall name g)) = Except.ok p at hp
+    cases hp
+    trivial
+  | filter p =>
+    simp only [Spec.toObj, Except.ok.injEq] at ho
+    subst ho
+    refine ⟨.ownFillInto rfl rfl rfl, rfl, rfl, ?_⟩
+    intro p' hp
+    change Except.ok (Pre.filter p.eval) = Except.ok p' at hp
+    cases hp
+    trivial
+  | slice a b st =>
+    obtain ⟨a', b', st', hk⟩ := hs
+    simp only [Spec.toObj, hk, Except.ok.injEq] at ho
+    subst ho
+    refine ⟨.ownFillInto rfl rfl rfl, rfl, rfl, ?_⟩
+    intro p' hp
+    change Except.ok (Pre.slice a' b' st') = Except.ok p' at hp
+    cases hp
+    exact mkSlice_islice_step a b st a' b' st' hk
+  | runIf p inner =>
+    simp only [Spec.toObj] at ho
+    split at ho
+    · cases ho
+    · split at ho
+      · cases ho
+      · simp only [Except.ok.injEq] at ho
+        subst ho
+        refine ⟨.canBreakFlow rfl rfl rfl rfl, rfl, rfl, ?_⟩
+        intro p' hp
+        rename_i seq _
+        change Except.ok (Pre.runEl (fun s => Except.ok (runIfS p.eval seq s))) = Except.ok p' at hp
+        cases hp
+        exact runIf_breaksFlow _ _
+  | count _ => cases hs
+  | reverse => cases hs
+  | end_ => cases hs
+  | acc _ => cases hs
+  | syn _ _ _ => cases hs
+  | junk => cases hs
+  | setContext => cases hs
+
+theorem toObjs_append : ∀ (a b : List Spec) (os : List Obj), Spec.toObjs (a ++ b) = .ok os →
+    ∃ oa ob, Spec.toObjs a = .ok oa ∧ Spec.toObjs b = .ok ob ∧ os = oa ++ ob
+  | [], b, os, h => ⟨[], os, rfl, h, rfl⟩
+  | s :: a, b, os, h => by
+    simp only [List.cons_append, Spec.toObjs] at h
+    cases ho : Spec.toObj s with
+    | error e => simp [ho] at h
+    | ok o =>
+      cases hr : Spec.toObjs (a ++ b) with
+      | error e => simp [ho, hr] at h
+      | ok os' =>
+        simp only [ho, hr, Except.ok.injEq] at h
+        subst h
+        obtain ⟨oa, ob, h1, h2, rfl⟩ := toObjs_append a b os' hr
+        exact ⟨o :: oa, ob, by simp [Spec.toObjs, ho, h1], h2, rfl⟩
+
+theorem toObjs_mem : ∀ (a : List Spec) (oa : List Obj), Spec.toObjs a = .ok oa →
+    ∀ o ∈ oa, ∃ s ∈ a, s.toObj = .ok o
+  | [], oa, h, o, ho => by
+    simp only [Spec.toObjs, Except.ok.injEq] at h
+    subst h
+    cases ho
+  | s :: a, oa, h, o, ho => by
+    simp only [Spec.toObjs] at h
+    cases hs : Spec.toObj s with
+    | error e => simp [hs] at h
+    | ok o' =>
+      cases hr : Spec.toObjs a with
+      | error e => simp [hs, hr] at h
+      | ok os' =>
+        simp only [hs, hr, Except.ok.injEq] at h
+        subst h
+        rcases List.mem_cons.mp ho with rfl | ho
+        · exact ⟨s, List.mem_cons_self .., hs⟩
+        · obtain ⟨s', hs', h'⟩ := toObjs_mem a os' hr o ho
+          exact ⟨s', List.mem_cons_of_mem _ hs', h'⟩
+
+theorem accOf_noStop (k : AccKind) : AccNoStop (accOf k) := by
+  intro s v h
+  cases k <;> simp only [accOf, accFill] at h
+  · split at h <;> cases h
+  · split at h <;> cases h
+  · cases h
+  · cases h
+
+theorem toPres_wf : ∀ (os : List Obj) (ps : List (Pre Value)), toPres os = .ok ps →
+    (∀ o ∈ os, ∀ p, o.toPre = .ok p → p.WF) → PreWF ps
+  | [], ps, h, _ => by
+    simp only [toPres, Except.ok.injEq] at h
+    subst h
+    intro e he
+    cases he
+  | o :: os, ps, h, hwf => by
+    simp only [toPres] at h
+    cases ho : o.toPre with
+    | error e => simp [ho] at h
+    | ok p =>
+      cases hr : toPres os with
+      | error e => simp [ho, hr] at h
+      | ok ps' =>
+        simp only [ho, hr, Except.ok.injEq] at h
+        subst h
+        have ih := toPres_wf os ps' hr (fun o' ho' => hwf o' (List.mem_cons_of_mem _ ho'))
+        intro e he
+        rcases List.mem_cons.mp he with rfl | he
+        · exact hwf o (List.mem_cons_self ..) _ ho
+        · exact ih e he
+
+/-- the object denoted by `Spec.acc k` -/
+def accObj (k : AccKind) : Obj :=
+  { caps := capsOf [("fill", .method), ("compute", .method)] false, accDen := accOf k }
+
+/-- **The three drivers agree, end to end on the functions the correspondence check validates**: for element
+descriptions `pre` of the property's kinds, any accumulator `Sum/Mean/StoreFilled/FillCompute(Count)`, any
+post-processing descriptions: if the `FillComputeSeq` can be built (chain `c`) and no pre-processing element
+raises on the flow, then `Sequence(*args).run(flow)`, the `FillComputeSeq` filled value by value and
+`Split([args], bufsize).run(flow)` give the same result. -/
+theorem spec_drivers_agree (pre post : List Spec) (k : AccKind) (flow : List Value) (bufsize : Option Nat)
+    (hb : bufsize ≠ some 0) (hscope : ∀ s ∈ pre, s.InScope)
+    (os : List Obj) (hos : Spec.toObjs (pre ++ .acc k :: post) = .ok os)
+    (c : Chain AccState Value) (hc : mkFillComputeSeq os = .ok c) (hsafe : PreSafe c.pre flow) :
+    driveSeq (pre ++ .acc k :: post) flow = .ran (fillRun c flow) ∧
+    driveFill (pre ++ .acc k :: post) flow = .ran (fillRun c flow) ∧
+    (driveSplit [pre ++ .acc k :: post] bufsize flow).map (fun s => s.map Prod.snd) = .ok (fillRun c flow) := by
+  obtain ⟨opre, orest, h1, h2, rfl⟩ := toObjs_append pre (.acc k :: post) os hos
+  simp only [Spec.toObjs] at h2
+  cases hpo : Spec.toObjs post with
+  | error e => simp [Spec.toObj, hpo] at h2
+  | ok opost =>
+    have hao : Spec.toObj (.acc k) = .ok (accObj k) := rfl
+    simp only [hao, hpo, Except.ok.injEq] at h2
+    subst h2
+    have hk : ∀ o ∈ opre, PreKind o ∧ o.hasNoData = false ∧ o.caps.isFillComputeEl = false ∧
+        ∀ p, o.toPre = .ok p → p.WF := by
+      intro o ho
+      obtain ⟨s, hs, hso⟩ := toObjs_mem pre opre h1 o ho
+      exact spec_preKind s (hscope s hs) o hso
+    -- the post-processing stages: `mkFillComputeSeq` succeeded, so they are convertible
+    have hpoststages : ∃ sts, toStages (dataSeq opost) = .ok sts := by
+      cases hst : toStages (dataSeq opost) with
+      | ok sts => exact ⟨sts, rfl⟩
+      | error e =>
+        exfalso
+        have hpreData : dataSeq opre = opre := dataSeq_of_all_data opre (fun o ho => (hk o ho).2.1)
+        have hdata : dataSeq (opre ++ (accObj k) :: opost) = opre ++ (accObj k) :: dataSeq opost := by
+          have hand : (accObj k).hasNoData = false := rfl
+          simp only [dataSeq] at hpreData ⊢
+          simp [List.filter_append, hpreData, List.filter_cons, hand]
+        have hsplit := splitAtFc_append opre (accObj k) (dataSeq opost) (fun o ho => (hk o ho).2.2.1) rfl
+        obtain ⟨ps, hps, _⟩ := preKinds_convert opre (fun o ho => (hk o ho).1)
+        have hdd : dataSeq (dataSeq opost) = dataSeq opost := by simp [dataSeq, List.filter_filter]
+        have hfill : (accObj k).caps.hasMethod "fill" = true := rfl
+        simp [mkFillComputeSeq, hdata, hsplit, mkFillSeq, hfill, hps, hdd, hst] at hc
+    obtain ⟨sts, hsts⟩ := hpoststages
+    obtain ⟨c', hc', hacc', hpost', hpre', hseq'⟩ := construct_chain opre opost
+      (accObj k) sts
+      (fun o ho => ⟨(hk o ho).2.1, (hk o ho).2.2.1, (hk o ho).1⟩) ⟨rfl, rfl, rfl, rfl⟩ hsts
+    rw [hc] at hc'
+    simp only [Except.ok.injEq] at hc'
+    subst hc'
+    have hwf : PreWF c.pre := toPres_wf opre c.pre hpre' (fun o ho => (hk o ho).2.2.2)
+    have hnostop : AccNoStop c.acc := by rw [hacc']; exact accOf_noStop k
+    have hagree := seq_eq_fill c flow hwf hnostop hsafe
+    refine ⟨?_, ?_, ?_⟩
+    · simp only [driveSeq, hos, hseq']
+      congr 1
+    · simp only [driveFill, hos, hc]
+    · have hsp := fill_eq_split c bufsize hb flow
+      simp only [driveSplit, Spec.toObjss, hos, mkChains, hc]
+      cases bufsize with
+      | none => simpa [splitRun, Except.map] using hsp
+      | some n =>
+        have : n ≠ 0 := fun h => hb (by rw [h])
+        simpa [splitRun, Except.map, this] using hsp
+
+/-- `(inc, Filter(even), Slice(2), Sum(), wrap)` on `[1, 2, 3, 4, 5]`: the hypotheses of `spec_drivers_agree` hold -/
+def exPreSpecs : List Spec := [.call .inc, .filter .even, .slice none (some 2) none]
+def exFlow : List Value := [.int 1, .int 2, .int 3, .int 4, .int 5]
+
+example : ∀ s ∈ exPreSpecs, s.InScope := by
+  intro s hs
+  simp only [exPreSpecs, List.mem_cons, List.not_mem_nil, or_false] at hs
+  rcases hs with rfl | rfl | rfl
+  · trivial
+  · trivial
+  · exact ⟨0, some 2, 1, by decide⟩
+
+example : ∃ os c, Spec.toObjs (exPreSpecs ++ .acc .sum :: [.call .wrap]) = .ok os ∧
+    mkFillComputeSeq os = .ok c ∧ PreSafe c.pre exFlow :=
+  ⟨_, _, rfl, rfl, rfl⟩
+
+example : driveSeq (exPreSpecs ++ .acc .sum :: [.call .wrap]) exFlow = .ran ⟨[.list [.int 6]], none⟩ := by rfl
+example : driveFill (exPreSpecs ++ .acc .sum :: [.call .wrap]) exFlow = .ran ⟨[.list [.int 6]], none⟩ := by rfl
 
 /-! ## 5. A chain as one of several branches of a `Split` (sentence 1, "a branch of a Split")
 
